@@ -183,10 +183,12 @@ Proof.
     rewrite H in St. inversion St; subst s2 e2. pose proof (shutdown_waiting f s) as Ws.
     destruct (shutdown f s) as [s1 e1] eqn:Sh. cbn in *. subst e.
     eapply shutdown_summary; try eassumption. congruence.
-  - pose proof (m_idle _ I) as I5. pose proof (m_nodup _ I) as I1. clear I.
+  - pose proof (m_idle _ I) as I5. pose proof (m_nodup _ I) as I1. pose proof (m_closed _ I) as I4. clear I.
     destruct s as [nw ch op tm sn ex q sd rc pd pa dl pls lw lpg wt]; cbn in *.
     destruct l; cbn in H, L; unfold send_ping, tick_ok in H; cbn in H; brk; try discriminate;
-    try (apply SQuiet; [intros c0; cbn; auto | reflexivity | cbn; try reflexivity; destruct I5 as (_ & T & _); auto; congruence | reflexivity]; fail).
+    try (apply SQuiet; [intros c0; cbn; auto | reflexivity
+                       | cbn; try reflexivity; first [destruct I5 as (_ & T & _); [reflexivity|]; congruence | destruct I4 as (T & _); [reflexivity|]; congruence]
+                       | reflexivity]; fail).
     + (* MReq blocks on the open result *) eapply SBlock; cbn; try reflexivity; assumption.
     + (* MReq refused while idle *) eapply SReject; cbn; try reflexivity; assumption.
     + (* MReq accepted *) eapply SAccept; cbn; try reflexivity; assumption.
@@ -564,6 +566,16 @@ Proof.
       * intros C. pose proof (step_stays_closed _ _ _ _ S C) as C1. destruct (I1 C1) as (X & Y). split; [lia | assumption].
       * destruct I2 as [X|(X & Y)]; [left; lia | right; split; [lia | assumption]].
     + destruct (I1 C2) as (X & Y). split; [intros C; contradiction | right; split; [lia | assumption]].
+Qed.
+
+Lemma closed_posts_notopen s l s' e c k :
+  Inv s -> cst s = Closed -> step s l = Some (s', e) -> In (Post c k) e -> k = KNotOpen.
+Proof.
+  intros I C H P. pose proof (m_closed _ I C) as (T & _). clear I.
+  destruct s as [nw ch op tm sn ex q sd rc pd pa dl pls lw lpg wt]. cbn in C, T. subst ch tm.
+  destruct l; cbn in H; unfold shutdown, send_ping, ar_fail, wake_fail, tick_ok in H; cbn in H; brk; cbn in P;
+  repeat match goal with H : _ \/ _ |- _ => destruct H end; try contradiction; try discriminate;
+  try (inversion P; reflexivity); try (match goal with H : Post _ _ = Post _ _ |- _ => inversion H; reflexivity end).
 Qed.
 
 End MuxP2.
